@@ -46,6 +46,14 @@ theorem canonical {α : Type} (c : Codec α) (b : Bytes) (a : α) (r : Bytes) (h
   have := c.dec_enc a [] hw
   simpa using this
 
+/-- encodings of well-formed values determine the value -/
+theorem enc_injective {α : Type} (c : Codec α) (a a' : α) (h : c.wf a) (h' : c.wf a') (e : c.enc a = c.enc a') : a = a' := by
+  have d1 := c.dec_enc a [] h
+  have d2 := c.dec_enc a' [] h'
+  rw [e, d2] at d1
+  simp at d1
+  exact d1.symm
+
 /-- `cryptobyte.String.read(n)`: the next `n` bytes -/
 def readN (n : Nat) (s : Bytes) : Option (Bytes × Bytes) :=
   if n ≤ s.length then some (s.take n, s.drop n) else none
